@@ -164,6 +164,52 @@ def anchored_child_family(st):
                             repr(got))
 
 
+NOTATION_DOC = (
+    "ports: [0x50, 80, 443, 8080, 0o1]\n"
+    "w: [&s 5, 5, 7, *s]\n"
+    "tags: [\"web\", db, web, cache, 'db']\n"
+    "recs: [{n: a, m: \"x\"}, {n: b, m: x}, {n: c, m: 0x1}, {n: d, m: 1}, "
+    "{n: e, m: y}]\n")
+NOTATION_CASES = [
+    ("/ports[unique()]", [443, 8080, 1]), ("/ports[!unique()]", [80, 80]),
+    ("/ports[distinct()]", [80, 443, 8080, 1]),
+    ("/w[unique()]", [7]), ("/w[!unique()]", [5, 5, 5]),
+    ("/w[distinct()]", [5, 7]),
+    ("/tags[unique()]", ["cache"]),
+    ("/tags[!unique()]", ["web", "db", "web", "db"]),
+    ("/tags[distinct()]", ["web", "db", "cache"]),
+    ("/recs[unique(m)]/n", ["e"]), ("/recs[!unique(m)]/n", ["a", "b", "c", "d"]),
+    ("/recs[distinct(m)]/n", ["a", "c", "e"]),
+]
+
+
+def notation_family(st):
+    """unique / distinct group members by VALUE however the document writes
+    it (hexadecimal, anchored, quoted): ruamel keeps each spelling in a node
+    type of its own."""
+    from yamlpath import Processor
+    doc = corpus.load(NOTATION_DOC)
+    for ptext, want in NOTATION_CASES:
+        for text in (ptext, ptext[1:].replace("/", ".")):
+            st.evaluations += 1
+            st.transitions += 1
+            st.validated += 1
+            st.states += 1
+            case = {"doc": NOTATION_DOC, "path": text, "notation_case": True}
+            try:
+                got = [corpus.plain_scalar(nc.node)[1] for nc in Processor(
+                    corpus.LOG, doc).get_nodes(text, mustexist=False)]
+            except Exception as ex:       # pylint: disable=broad-except
+                got = "%s: %s" % (type(ex).__name__, str(ex)[:80])
+            st.sig("notation", ptext)
+            # (which members, not in which order: inverted results come
+            # group by group)
+            if isinstance(got, str) or sorted(map(repr, got)) != sorted(
+                    map(repr, want)):
+                st.fail("notation|%s" % ptext.split("[")[1].split("(")[0],
+                        case, repr(want), repr(got))
+
+
 def nav(pos):
     segs = []
     for ref in pos:
@@ -276,6 +322,7 @@ def run_shard(shard):
             st.sample({"doc": text, "path": plist[len(plist) // 3][1]})
     if lo == 0:
         anchored_child_family(st)
+        notation_family(st)
     return st
 
 
@@ -283,6 +330,14 @@ def replay(case):
     if case.get("anchored_child"):
         st = core.Stats(None)
         anchored_child_family(st)
+        for lst in st.fails.values():
+            for f in lst:
+                if f["case"]["path"] == case["path"]:
+                    return f
+        return None
+    if case.get("notation_case"):
+        st = core.Stats(None)
+        notation_family(st)
         for lst in st.fails.values():
             for f in lst:
                 if f["case"]["path"] == case["path"]:
